@@ -49,7 +49,12 @@ def model_call(c):
          # the last component of the raw path is "." (c["path"] is then the directory it denotes)
          "dot": bool(c.get("dot")), "dot2": bool(c.get("dot2")),
          # host fault: name of the POSIX error that the host operation carrying out this call fails with ("" = none)
-         "fault": c.get("fault", "")}
+         "fault": c.get("fault", ""),
+         # walk mode (WasiFs.WalkDir): the components leading to the directory of the last name, and that name ("" = the path as a
+         # whole denotes a directory); pseq: the components of an already normalised path; tcomps/tabs: a link target in components
+         "walk": bool(c.get("walk")), "wcomps": list(c.get("wcomps", [])), "wlast": c.get("wlast", ""),
+         "pseq": [x for x in c.get("path", "").split("/") if x],
+         "tcomps": [x for x in c.get("target", "").split("/") if x], "tabs": c.get("target", "").startswith("/")}
     return m
 
 
